@@ -173,6 +173,9 @@ class ReopenEngine(Engine):
         for _ in range(swarm["steps"]):
             r = rng.random() * (10 + swarm["reopen_w"] + swarm["oi_w"])
             if r < swarm["reopen_w"]:
+                if rng.random() < 0.25:
+                    steps.append({"op": "sync"})  # save now, keep using the same Project object
+                    continue
                 steps.append({"op": "reopen"})
                 if rng.random() < 0.2:
                     steps.append({"op": "reopen"})
@@ -246,6 +249,18 @@ class ReopenEngine(Engine):
                 prefix.append(_abs_sig(st))
                 out.evals += 1
                 out.stats["step_" + op] += 1
+                if op == "sync":
+                    A.clock.advance(1_000_000_000)
+                    B.clock.advance(1_000_000_000)
+                    B.use()
+                    try:
+                        B.project.sync()
+                    except Exception as e:
+                        out.violate("close_raised", {"op": "sync", "exc": type(e).__name__}, {"step": i, "exc": repr(e)[:300]}, where=i)
+                        break
+                    out.stats["probe_sync_same_instance"] += 1
+                    out.log.add(ev="sync", i=i)
+                    continue
                 if op == "reopen":
                     A.clock.advance(1_000_000_000)
                     B.clock.advance(1_000_000_000)
@@ -420,7 +435,13 @@ class ReopenEngine(Engine):
                 ]
             except Exception as e:
                 decoded = ["undecodable", repr(e)[:200]]
-            if decoded != h_before:
+            expected = h_before
+            if decoded != h_before and _has_bytes(h_before):
+                # contents handed over as bytes have no JSON form: the side file carries null for them
+                # (it is not read back by rope; the pickle keeps the bytes) -- compared with bytes as null
+                expected = _bytes_as_none(h_before)
+                out.stats["probe_history_json_bytes_as_null"] += 1
+            if decoded != expected:
                 ok = False
                 out.violate(
                     "json_text_roundtrip", {"op": "reopen", "file": "history.json"},
@@ -481,6 +502,18 @@ class ReopenEngine(Engine):
         return "ok"
 
 
+def _has_bytes(h):
+    return '["bytes",' in kernel.canon(h) or "['bytes'," in repr(h)
+
+
+def _bytes_as_none(node):
+    if isinstance(node, list):
+        if len(node) == 2 and node[0] == "bytes" and isinstance(node[1], str):
+            return None
+        return [_bytes_as_none(x) for x in node]
+    return node
+
+
 def _nl_norm(b):
     return b.replace(b"\r\n", b"\n").replace(b"\r", b"\n")
 
@@ -494,7 +527,7 @@ def _edits_linebreak_free(hist, descs, paths):
             continue
         for c in _flat_struct(cs):
             if c[0] == "edit":  # (the file may have been moved since: any path)
-                if "\n" not in (c[3] or "") or "\n" not in (c[4] or ""):
+                if "\n" not in (c[3] if isinstance(c[3], str) else "\n") or "\n" not in (c[4] if isinstance(c[4], str) else "\n"):
                     return True
     return False
 
